@@ -188,6 +188,9 @@ answer_write_options(Value) :-
 set_prolog_flag(Flag, Value) :-
     (var(Flag) ; var(Value)),
     throw(error(instantiation_error, set_prolog_flag/2)). % 8.17.1.3 a, b
+set_prolog_flag(max_arity, 255) :- !. % 7.11.1, read-only: only its own value is accepted
+set_prolog_flag(max_arity, Value) :-
+    throw(error(domain_error(flag_value, max_arity + Value), set_prolog_flag/2)). % 8.17.1.3 e
 set_prolog_flag(bounded, false) :- !. % 7.11.1.1
 set_prolog_flag(bounded, true)  :- !, '$fail'. % 7.11.1.1
 set_prolog_flag(bounded, Value) :-
@@ -222,6 +225,10 @@ set_prolog_flag(occurs_check, error) :-
     !, '$set_sto_with_error_as_unify'.
 set_prolog_flag(double_quotes, Value) :-
     flag_domain_error(double_quotes, Value).
+set_prolog_flag(unknown, Value) :-
+    flag_domain_error(unknown, Value).
+set_prolog_flag(occurs_check, Value) :-
+    flag_domain_error(occurs_check, Value).
 set_prolog_flag(answer_write_options, Options) :-
     !,
     catch(catch(builtins:parse_write_options(Options, _, set_prolog_flag/2),
